@@ -57,8 +57,8 @@ def main():
         shutil.rmtree(wt, ignore_errors=True)
     ok = meta.get('demo_without_patch_exit') == 0 and meta.get('demo_with_patch_exit') not in (0, None)
     meta['confirmed'] = ok
-    if ok:
-        dst = os.path.join(VERIF, 'seeded', sid); os.makedirs(dst, exist_ok=True)
+    if True:   # unconfirmed deliveries are kept too (meta.confirmed = false), never lost with the worktree
+        dst = os.path.join(VERIF, 'seeded', sid if ok else sid + '.unconfirmed'); os.makedirs(dst, exist_ok=True)
         for f in ('patch.diff', 'demo.py', 'notes.md'):
             if os.path.exists(os.path.join(src, f)): shutil.copy(os.path.join(src, f), dst)
         notes = os.path.join(src, 'notes.md')
